@@ -387,14 +387,15 @@ impl VarFile {
             if bitmap_bit_idx == 0 {
                 let bimap_start = HTX_HEADER_SZ + buckets_size * 8;
                 self.seek_from_start(NodePieceOffset::new(bimap_start + bitmap_idx))?;
+                let start_idx = idx;
                 let mut idx = idx;
                 //
                 let mut byte_8 = 0;
-                while byte_8 == 0 && idx < buckets_size - 8 {
+                while byte_8 == 0 && idx + 8 < buckets_size {
                     byte_8 = self.read_u64_le()?;
                     idx += 8 * 8;
                 }
-                if idx >= 8 * 8 {
+                if idx > start_idx {
                     self.seek_back_size(NodePieceSize::new(std::mem::size_of_val(&byte_8) as u32))?;
                     idx -= 8 * 8;
                 }
